@@ -53,27 +53,13 @@ Definition rel_of (k : rkind) (last second2last : Z) : bool :=
   | RAbove t => t <? last
   end.
 
-(* _RepeatedMetricChange.condition, the update of self.so_far; generic in the value type *)
-Definition so_far_step {V : Type} (rel : V -> V -> bool) (so_far : Z) (h : list V) : Z :=
-  match h with
-  | last :: second2last :: _ => if rel last second2last then so_far + 1 else 0
-  | _ => 0
-  end.
+(* _pairwise class attribute: the relation reads two consecutive entries (True) or the latest
+   entry only (False: RepeatedMetricBelow / Above) *)
+Definition pairwise_of (k : rkind) : bool :=
+  match k with RBelow _ | RAbove _ => false | _ => true end.
 
-(* the callback evaluated once after each of the values xs (oldest first) was appended to a
-   history that was h0 when the callback was created; returns the final counter *)
-Fixpoint run_counter {V : Type} (rel : V -> V -> bool) (so_far : Z) (h0 : list V) (xs : list V) : Z :=
-  match xs with
-  | [] => so_far
-  | x :: r => run_counter rel (so_far_step rel so_far (x :: h0)) (x :: h0) r
-  end.
-
-(* ... and the value of condition() at each of these evaluations *)
-Fixpoint rep_trace {V : Type} (rel : V -> V -> bool) (n : Z) (so_far : Z) (h0 : list V) (xs : list V) : list bool :=
-  match xs with
-  | [] => []
-  | x :: r => let s := so_far_step rel so_far (x :: h0) in (n <=? s) :: rep_trace rel n s (x :: h0) r
-  end.
+(* _last_satisfied(last, None) of the two non-pairwise subclasses *)
+Definition val_of (k : rkind) (last : Z) : bool := rel_of k last last.
 
 (* The history predicate: number of consecutive most recent history pairs satisfying rel *)
 Fixpoint streak {V : Type} (rel : V -> V -> bool) (h : list V) : nat :=
@@ -85,12 +71,48 @@ Fixpoint streak {V : Type} (rel : V -> V -> bool) (h : list V) : nat :=
   | [] => O
   end.
 
+(* _RepeatedMetricChange.condition (pairwise):
+     so_far = 0
+     while so_far < times_required and so_far + 2 <= len(history)
+           and _last_satisfied(history[-1 - so_far], history[-2 - so_far]): so_far += 1
+   `cap` = the remaining times_required - so_far; `h` = the history without its so_far latest entries *)
+Fixpoint streak_cap {V : Type} (rel : V -> V -> bool) (cap : nat) (h : list V) : nat :=
+  match cap with
+  | O => O
+  | S c => match h with
+           | a :: t => match t with
+                       | b :: _ => if rel a b then S (streak_cap rel c t) else O
+                       | [] => O
+                       end
+           | [] => O
+           end
+  end.
+
 (* number of consecutive most recent VALUES satisfying f (documented Below/Above predicate) *)
 Fixpoint streak1 {V : Type} (f : V -> bool) (h : list V) : nat :=
   match h with
   | a :: t => if f a then S (streak1 f t) else O
   | [] => O
   end.
+
+(* the same loop for the non-pairwise subclasses (needed = 1: the oldest entry counts) *)
+Fixpoint streak1_cap {V : Type} (f : V -> bool) (cap : nat) (h : list V) : nat :=
+  match cap with
+  | O => O
+  | S c => match h with
+           | a :: t => if f a then S (streak1_cap f c t) else O
+           | [] => O
+           end
+  end.
+
+(* the value condition() stores in self.so_far *)
+Definition leaf_count (k : rkind) (times_required : Z) (h : list Z) : Z :=
+  Z.of_nat (if pairwise_of k then streak_cap (rel_of k) (Z.to_nat times_required) h
+            else streak1_cap (val_of k) (Z.to_nat times_required) h).
+
+(* the documented count: latest consecutive pairs (entries for Below / Above) satisfying the relation *)
+Definition doc_count (k : rkind) (h : list Z) : nat :=
+  if pairwise_of k then streak (rel_of k) h else streak1 (val_of k) h.
 
 (* ------------------------------------------------------------------------------------- *)
 (* Condition callbacks                                                                    *)
@@ -123,9 +145,10 @@ Definition in_closed (lo hi : option Z) (e : Z) : bool :=
 
 Definition hist_of (use_train : bool) (v : view) : list Z := if use_train then v_train v else v_valid v.
 
-(* condition(solver): returns the Boolean and the callback with its updated counters.
+(* condition(solver): returns the Boolean and the callback with its updated (cached) so_far.
    AndCallback / OrCallback return early (the remaining sub-callbacks are NOT evaluated, so
-   their counters stay as they are); XorCallback evaluates every sub-callback. *)
+   their cached so_far stays as it is); XorCallback evaluates every sub-callback.  Since the
+   repair of _RepeatedMetricChange the cached value is never read. *)
 Fixpoint step (v : view) (p : pred) {struct p} : bool * pred :=
   match p with
   | PTrue => (true, p)
@@ -169,7 +192,7 @@ Fixpoint step (v : view) (p : pred) {struct p} : bool * pred :=
            end) l in
       (cnt mod 2 =? 1, PXor l')
   | PRepeated k tr n s =>
-      let s' := so_far_step (rel_of k) s (hist_of tr v) in
+      let s' := leaf_count k n (hist_of tr v) in
       (n <=? s', PRepeated k tr n s')
   end.
 
@@ -209,7 +232,7 @@ Fixpoint stateless (p : pred) : bool :=
 
 (* The documented Boolean meaning of a callback (specification side): plain Boolean
    connectives, no evaluation order, no state.  A repeated-metric leaf means "the latest
-   times_required consecutive history pairs satisfy the relation". *)
+   times_required consecutive history pairs (entries, for Below / Above) satisfy the relation". *)
 Fixpoint psem (v : view) (p : pred) {struct p} : bool :=
   match p with
   | PTrue => true
@@ -225,7 +248,7 @@ Fixpoint psem (v : view) (p : pred) {struct p} : bool :=
   | POr l => (fix any (l : list pred) : bool := match l with [] => false | q :: r => psem v q || any r end) l
   | PNot q => negb (psem v q)
   | PXor l => (fix par (l : list pred) : bool := match l with [] => false | q :: r => xorb (psem v q) (par r) end) l
-  | PRepeated k tr n _ => n <=? Z.of_nat (streak (rel_of k) (hist_of tr v))
+  | PRepeated k tr n _ => n <=? Z.of_nat (doc_count k (hist_of tr v))
   end.
 
 (* odd parity of a list of Booleans *)
@@ -270,8 +293,15 @@ Fixpoint set_trace (reset called : bool) (fires : list bool) : list bool :=
               else false :: set_trace reset called r
   end.
 
-(* SetOptimizer(<class>): chain.from_iterable(net.parameters() for net in solver.nets) *)
-Definition opt_params {P : Type} (nets : list (list P)) : list P := concat nets.
+(* SetOptimizer(<class>): OrderedSet(chain.from_iterable(net.parameters() for net in solver.nets)):
+   OrderedSet = order-preserving de-duplication keeping the first occurrence *)
+Fixpoint dedup {P : Type} (dec : forall x y : P, {x = y} + {x <> y}) (seen : list P) (l : list P) : list P :=
+  match l with
+  | [] => []
+  | x :: r => if in_dec dec x seen then dedup dec seen r else x :: dedup dec (x :: seen) r
+  end.
+Definition opt_params {P : Type} (dec : forall x y : P, {x = y} + {x <> y}) (nets : list (list P)) : list P :=
+  dedup dec [] (concat nets).
 
 (* EveCallback, integer part: `self.n_max = n_max or np.inf`, n = min(n_0 * 2 ** k, n_max) *)
 Definition eve_cap (n_max : option Z) : option Z :=
